@@ -10,7 +10,9 @@ import (
 	"github.com/cloudwego/gopkg/unsafex"
 	"math/rand"
 	"os"
+	"io"
 	"os/exec"
+	"reflect"
 	"path/filepath"
 	"strings"
 	"sync"
@@ -21,6 +23,7 @@ import (
 	"github.com/cloudwego/gopkg/bufiox"
 	"github.com/cloudwego/gopkg/container/strmap"
 	"github.com/cloudwego/gopkg/protocol/thrift"
+	"github.com/cloudwego/gopkg/protocol/thrift/apache"
 	"github.com/cloudwego/gopkg/protocol/thrift/base"
 	"github.com/cloudwego/gopkg/protocol/ttheader"
 )
@@ -104,7 +107,7 @@ func stressWorker(g int, cycles int, seed int64, lg *lockedLog, shared *strmap.S
 	for c := 0; c < cycles; c++ {
 		ok := true
 		data, lens := encodeVals(g, c, rng)
-		switch rng.Intn(10) {
+		switch rng.Intn(12) {
 		case 0: // BufferReader over a bytes reader / stream reader
 			var rd bufiox.Reader
 			if rng.Intn(2) == 0 {
@@ -301,6 +304,10 @@ func stressWorker(g int, cycles int, seed int64, lg *lockedLog, shared *strmap.S
 			if err != nil || len(tr) != 1 || tr[0].ID != int16(g) || tr[0].Value.(string) != fmt.Sprint("v", g, c) {
 				ok = false
 			}
+		case 9, 10: // the rest of the exported API, on values that are the goroutine's own
+			if !stressRestOfAPI(g, c, rng) {
+				ok = false
+			}
 		default: // concurrent Get on the shared map
 			for i := 0; i < 20; i++ {
 				k := keys[rng.Intn(len(keys))]
@@ -316,6 +323,144 @@ func stressWorker(g int, cycles int, seed int64, lg *lockedLog, shared *strmap.S
 		}
 		lg.check(g, "cycle", ok)
 	}
+}
+
+// stressRestOfAPI: reflective unknown-field access on struct types of the goroutine's own (types the library meets for the
+// first time while other goroutines are calling it, and types it has met), unknown-field writing, the apache
+// transports, bytes-backed bufiox readers / writers, ApplicationException / BaseResp codecs, skipping of nested
+// containers, TTHeader over stream writers / readers.  Everything is private to the goroutine and self-checked.
+func stressRestOfAPI(g, c int, rng *rand.Rand) bool {
+	ok := true
+	// 1. GetUnknownFields on private struct types
+	for k := 0; k < 6; k++ {
+		tn := c*6 + k
+		if k >= 3 {
+			tn = k // types met before
+		}
+		tp := reflect.StructOf([]reflect.StructField{
+			{Name: fmt.Sprintf("A%d_%d", g, tn), Type: reflect.TypeOf(int64(0))},
+			{Name: fmt.Sprintf("B%d_%d", g, tn), Type: reflect.TypeOf("")},
+			{Name: "_unknownFields", PkgPath: "github.com/cloudwego/gopkg/protocol/thrift/unknownfields", Type: reflect.TypeOf([]byte(nil))},
+		})
+		id, tag := int64(g)<<32|int64(c)<<8|int64(k), fmt.Sprint("g", g, "c", c, "k", k)
+		var b []byte
+		b = thrift.Binary.AppendFieldBegin(b, thrift.I64, 1)
+		b = thrift.Binary.AppendI64(b, id)
+		b = thrift.Binary.AppendFieldBegin(b, thrift.STRING, 2)
+		b = thrift.Binary.AppendString(b, tag)
+		pv := reflect.New(tp)
+		*(*[]byte)(unsafe.Pointer(pv.Elem().Field(2).UnsafeAddr())) = b
+		fs, err := uf.GetUnknownFields(pv.Interface())
+		if err != nil || len(fs) != 2 || fs[0].ID != 1 || fs[1].ID != 2 {
+			return false
+		}
+		if v, _ := fs[0].Value.(int64); v != id {
+			ok = false
+		}
+		if v, _ := fs[1].Value.(string); v != tag {
+			ok = false
+		}
+		// ... and back to bytes
+		n, err := uf.UnknownFieldsLength(fs)
+		out := make([]byte, n)
+		m, err2 := uf.WriteUnknownFields(out, fs)
+		if err != nil || err2 != nil || n != len(b) || m != n || !bytes.Equal(out, b) {
+			ok = false
+		}
+	}
+	// 2. apache transports over private buffers
+	payload := PatBytes(g+3, c, 100+rng.Intn(5000))
+	bb := &bytes.Buffer{}
+	var tr apache.TTransport
+	if c%2 == 0 {
+		tr = apache.NewBufferTransport(bb)
+	} else {
+		tr = apache.NewDefaultTransport(bb)
+	}
+	if n, err := tr.Write(payload); err != nil || n != len(payload) || tr.RemainingBytes() != uint64(len(payload)) {
+		ok = false
+	}
+	got := make([]byte, len(payload))
+	if n, err := io.ReadFull(tr, got); err != nil || n != len(payload) || !bytes.Equal(got, payload) || bb.Len() != 0 {
+		ok = false
+	}
+	tr.Close()
+	// 3. bytes-backed bufiox
+	var wb []byte
+	bw := bufiox.NewBytesWriter(&wb)
+	mb, _ := bw.Malloc(4)
+	copy(mb, payload[:4])
+	bw.WriteBinary(payload[4:])
+	if bw.Flush() != nil || !bytes.Equal(wb, payload) {
+		ok = false
+	}
+	brd := bufiox.NewBytesReader(wb)
+	if p, err := brd.Next(10); err != nil || !bytes.Equal(p, payload[:10]) {
+		ok = false
+	}
+	if err := brd.Skip(len(payload) - 20); err != nil {
+		ok = false
+	}
+	tail := make([]byte, 10)
+	if n, err := brd.ReadBinary(tail); err != nil || n != 10 || !bytes.Equal(tail, payload[len(payload)-10:]) {
+		ok = false
+	}
+	brd.Release(nil)
+	// 4. ApplicationException / BaseResp codecs
+	ae := thrift.NewApplicationException(int32(g*100+c%50), string(PatBytes(g, c+9, 10+rng.Intn(6000))))
+	eb := make([]byte, ae.BLength())
+	if n := ae.FastWriteNocopy(eb, nil); n != len(eb) {
+		ok = false
+	}
+	ae2 := thrift.NewApplicationException(0, "")
+	if n, err := ae2.FastRead(eb); err != nil || n != len(eb) || ae2.TypeID() != ae.TypeID() || ae2.Msg() != ae.Msg() {
+		ok = false
+	}
+	resp := &base.BaseResp{StatusMessage: fmt.Sprint("st", g, c), StatusCode: int32(c), Extra: map[string]string{"k": fmt.Sprint(g)}}
+	rb := thrift.FastMarshal(resp)
+	resp2 := base.NewBaseResp()
+	if err := thrift.FastUnmarshal(rb, resp2); err != nil || resp2.StatusMessage != resp.StatusMessage || resp2.StatusCode != resp.StatusCode || resp2.Extra["k"] != fmt.Sprint(g) {
+		ok = false
+	}
+	// 5. skipping a nested container
+	var nb []byte
+	nb = thrift.Binary.AppendMapBegin(nb, thrift.STRING, thrift.LIST, 2)
+	for i := 0; i < 2; i++ {
+		nb = thrift.Binary.AppendString(nb, fmt.Sprint("key", g, i))
+		nb = thrift.Binary.AppendListBegin(nb, thrift.STRUCT, 2)
+		for j := 0; j < 2; j++ {
+			nb = thrift.Binary.AppendFieldBegin(nb, thrift.I32, 1)
+			nb = thrift.Binary.AppendI32(nb, int32(c))
+			nb = thrift.Binary.AppendFieldStop(nb)
+		}
+	}
+	if n, err := thrift.Binary.Skip(append(nb, 0xAA), thrift.MAP); err != nil || n != len(nb) {
+		ok = false
+	}
+	// 6. TTHeader over a stream writer and a stream reader
+	sink := &recSink{}
+	sw := bufiox.NewDefaultWriter(sink)
+	ep := ttheader.EncodeParam{SeqID: int32(g*1000 + c), IntInfo: map[uint16]string{uint16(100 + g): fmt.Sprint("i", c)}, StrInfo: map[string]string{fmt.Sprint("sk", g): fmt.Sprint("sv", c)}}
+	tl, err := ttheader.Encode(context.Background(), ep, sw)
+	if err != nil {
+		return false
+	}
+	hl := sw.WrittenLen()
+	sw.WriteBinary(payload[:50])
+	tl[0], tl[1], tl[2], tl[3] = byte((hl + 50 - 4) >> 24), byte((hl + 50 - 4) >> 16), byte((hl + 50 - 4) >> 8), byte(hl + 50 - 4)
+	if sw.Flush() != nil {
+		ok = false
+	}
+	sr := bufiox.NewDefaultReader(&dataSource{data: bytes.Join(sink.payloads, nil), chunks: []int{1 + rng.Intn(40)}})
+	dp, err := ttheader.Decode(context.Background(), sr)
+	if err != nil || dp.SeqID != ep.SeqID || dp.IntInfo[uint16(100+g)] != fmt.Sprint("i", c) || dp.StrInfo[fmt.Sprint("sk", g)] != fmt.Sprint("sv", c) || dp.PayloadLen != 50 {
+		ok = false
+	}
+	if p, err := sr.Next(50); err != nil || !bytes.Equal(p, payload[:50]) {
+		ok = false
+	}
+	sr.Release(nil)
+	return ok
 }
 
 func runStress(cs ConcCase, w *TraceWriter) int64 {
